@@ -18,6 +18,7 @@ import numpy
 from .core import Driver, REPO, frac, next_down, next_up
 from . import c18_tree
 from . import c18_text
+from . import c18_calls
 
 LEVEL_TEXT = ("Proof: a field value whose kinds lie in {int, bool, float, numpy integer/bool/floating scalars, str, None, "
               "lists/tuples/arrays of these} is read back equal after json.dump(default=_json_default)/json.load, for every "
@@ -43,7 +44,15 @@ LEVEL_TEXT = ("Proof: a field value whose kinds lie in {int, bool, float, numpy 
               "level; any whitespace-only layout parses alike; the text is pure ASCII; NaN / +-Infinity survive as tokens. Floats: "
               "for every finite double the round trip needs the computable fact floatOkB (NUMBER_RE matches the whole shortest repr "
               "and reading it gives the same bits) - a hypothesis of the theorems (FloatsOK), kernel-checked on examples and "
-              "evaluated by the driver for every double met in a run; not proved for all doubles.")
+              "evaluated by the driver for every double met in a run. Round 6: that hypothesis is DISCHARGED for every finite double that "
+              "is zero (either sign) or normal (`float_ok_normal`: pyReprF is property C14's FloatText.floatStr; NUMBER_RE is proved "
+              "to accept each of the four repr layouts at character level, the bit pattern <-> rational maps are proved inverse on "
+              "normal patterns, C11's reprSearch_roundtrip gives the value), so parse_render_normal / load_render_safe_normal / "
+              "load_save_normal / render_ascii_normal carry no float hypothesis; subnormal doubles stay a per-value computable check. "
+              "The loader's nesting limit is an explicit parameter (loadLimited L: a written tree loads back iff its depth <= L, beyond "
+              "it RecursionError, never another value; L is measured on every run). Every function under csep/ that constructs a "
+              "result class is enumerated from the source on every run; each constructs a class the factory maps to itself "
+              "(producers_factory_total, producer_result_class_preserved).")
 LEVEL_NOTE = ("The JSON text layer is modelled at character level (round 4) except float.__repr__ / float(): Model/JsonFloat.lean "
               "is an executable transcription of the shortest repr on top of C11's DecimalText.reprValue whose round trip is a "
               "per-double computable hypothesis (checked for every double of every run by op c18_text_floatok), not a theorem for "
@@ -84,11 +93,17 @@ THEOREMS = ["ResultJson.roundtrip_safe", "ResultJson.numpy_scalars_roundtrip_as_
             "JsonText.parse_renderRaw", "JsonText.parse_render", "JsonText.parse_render_nofloat", "JsonText.whitespace_irrelevant",
             "JsonText.compact_same", "JsonText.decode_parse_render", "JsonText.load_render_safe", "JsonText.load_save",
             "JsonText.string_roundtrip", "JsonText.int_roundtrip", "JsonText.nonfinite_tokens", "JsonText.render_ascii",
-            "JsonText.float_numeral_alphabet"]
+            "JsonText.float_numeral_alphabet",
+            # round 6: floats without hypothesis, nesting limit, producers
+            "JsonText.float_ok_normal", "JsonText.floatsOK_of_normal", "JsonText.parse_render_normal",
+            "JsonText.decode_parse_render_normal", "JsonText.load_render_safe_normal", "JsonText.load_save_normal",
+            "JsonText.render_ascii_normal", "JsonText.depth_sortTree", "JsonText.load_limited_ok", "JsonText.load_limited_too_deep",
+            "JsonText.load_limited_normal", "ResultJson.producers_classes_known", "ResultJson.producers_factory_total",
+            "ResultJson.every_class_produced", "ResultJson.producer_result_class_preserved"]
 TRUSTED = ["Lean 4.33 kernel", "axioms: propext, Classical.choice, Quot.sound at most",
            "CPython json text: modelled at character level (Model/JsonText.lean) and compared with the real files on every run; "
-           "still trusted: float.__repr__ is the shortest decimal that reads back (executable model pyFloatText, its round trip "
-           "evaluated per double, not proved for all), open() decodes the ASCII text the library writes in every locale "
+           "float.__repr__ / float(): the character model is C14's FloatText.floatStr, proved to read back for zero / normal doubles "
+           "(subnormals: per-value check); still trusted: open() decodes the ASCII text the library writes in every locale "
            "(re-run in a child process under the C locale)",
            "numpy.float64 is a float subclass and json writes it as a number; every other numpy scalar reaches "
            "_json_default and is written as its .item(); other unknown objects as str(obj) (all re-checked per value by "
@@ -131,7 +146,14 @@ RULE = ("every public saver / loader pair for results (write_json | FileSystem.s
         "truncated files, 110 hand-made texts incl. 66 malformed ones); 36 / 200 results of every class with non-ASCII forecast / "
         "catalog / test names + one real evaluation + regions through every writer / reader pairing in a CHILD PROCESS under "
         "LC_ALL=C, PYTHONUTF8=0 (thorough also C.UTF-8 and UTF-8 mode); the spacing argument of a region as numpy.float32 / "
-        "float64 / int / numpy.int64 (float32 with a non-dyadic spacing: known finding D44, signature SIG_D44)")
+        "float64 / int / numpy.int64 (float32 with a non-dyadic spacing: known finding D44, signature SIG_D44). Round 6 "
+        "(harness/c18_calls.py): the producers table from the source; every public call positionally and by keyword in both orders, "
+        "module-level and csep-level entry points (20 / 150 sub-cases x 12 writer-loader pairs + 7 ways to build a region); results "
+        "with -0.0, subnormals, the largest double, integers beyond 2^53 / 2^63 as python ints, numpy int64 / uint64 scalars and "
+        "arrays, float32 subnormals, distributions of exactly 0 / 1 / 65535 / 65536 / 65537 entries, regions with origins at -0.0, "
+        "across zero, at the date line / poles (36 / 400); caller-owned dictionaries and arrays left alone, loads independent, "
+        "to_dict not aliased (12 / 100); relative paths under another working directory, another TZ, warnings as errors, a save "
+        "after a failed save (5 / 40); files nested just below / at / beyond the measured loader limit")
 
 FIELDS = ("test_distribution", "name", "observed_statistic", "quantile", "status", "obs_catalog_repr", "sim_name",
           "obs_name", "min_mw")
@@ -1158,6 +1180,7 @@ def run_eval(run, drv, pend, sub_seed, variant, tmp, only=None):
         if res is None:
             run.count(f"no-result:{label}:{variant}")
             continue
+        c18_calls.check_produced(run, case, res)
         check_result(run, drv, pend, res, case, True, tmp)
 
 
@@ -1172,6 +1195,7 @@ def run(run, rng, tier):
                 if f.endswith(".json"):
                     replay(run, json.load(open(os.path.join(cdir, f))), _ctx=(drv, pend, tmp))
         classes = check_tables(run, drv, pend)
+        c18_calls.check_producers(run, classes, extract_tables()[1])
         # 1. every evaluation function on generated inputs
         reps = 60 if thorough else 10
         for variant in VARIANTS:
@@ -1233,7 +1257,10 @@ def run(run, rng, tier):
         # 5. round 4: the JSON TEXT layer (model's writer / parser against the real files), and the round trips of the property
         #    under other process environments (locale / text encoding) in a child process
         c18_text.run_all(run, drv, pend, rng, thorough, tmp)
+        c18_text.check_depth(run, drv, pend, tmp)
         c18_text.run_envs(run, rng, thorough, classes)
+        # 6. round 6: call shapes (positional / keyword, alternative entry points), numeric extremes, caller-owned objects, process state
+        c18_calls.run_all(run, rng, thorough, tmp, classes)
         # 3b. SIZES: a lattice of more than 2^16 cells (257 x 256), probes in cells whose index exceeds 65535
         for _ in range(2 if thorough else 1):
             dh = rng.choice([0.1, 0.25])
@@ -1265,7 +1292,13 @@ def replay(run, payload, _ctx=None):
 
 def _replay_one(run, drv, pend, case, tmp):
     mode = case.get("mode")
-    if mode == "region-dhform":
+    if mode == "text-depth":
+        c18_text.check_depth(run, drv, pend, tmp)
+    elif mode == "calls":
+        c18_calls.run_case(run, case["sub"], case["sub_seed"], tmp, extract_tables()[0])
+    elif mode == "producers":
+        c18_calls.check_producers(run, extract_tables()[0], extract_tables()[1])
+    elif mode == "region-dhform":
         check_region_dhform(run, None, case["form"], tmp, spec=case["spec"])
     elif mode == "env":
         c18_text.check_env(run, case["env"], [case["spec"]])
